@@ -357,7 +357,8 @@ partial def decV (s : String) : Option V :=
     else some (.str (((String.ofList r).splitOn ".").filterMap String.toNat?))
   | 'b' :: r => some (.bool (String.ofList r == "1"))
   | 't' :: r =>
-    match (String.ofList r).splitOn "." with
+    -- a zone suffix `@name:offset` (representation only) is ignored: operators see instants
+    match ((String.ofList r).splitOn "@").headD "" |>.splitOn "." with
     | [a, b] => match a.toInt?, b.toNat? with
       | some a, some b => some (.dateTime a b)
       | _, _ => none
